@@ -12,6 +12,11 @@ CHECKS = {
          "Held on every explored (operator, element value, argument) triple at both boundaries (logic.MatchesHasExpression and V().has() on Badger) and on all and/or/not trees to depth 2 (quick) / sampled depth 3 (thorough) in four algebraically equivalent forms. The grid is finite and run completely; nothing is claimed for values outside it.",
          "Trusted: the 120-line Has evaluator in harness/model/has.go (written from the docs); assumptions listed in the evidence file (missing=null, JSON-number grammar for numeric text, non-list membership arguments not generated).",
          "5/C08"),
+ "C03": ("exploration",
+         "runtime reference-model monitor over mutation histories: every history step is executed on kvgraph/Badger in worker processes and the complete observation set is compared with an abstract-graph model after every step; timestamps checked by string equality",
+         "Held on every explored history: all sequences of depth 2 (quick) / 3 (thorough) over a 37-operation alphabet from three base states plus 300 / 20000 seeded random histories of length 10-25, the full observation set (lookups, listings, adjacency with label filters, label listings and scans, traversals) taken after every step. Bounded to the small universe and history lengths stated; the exhaustive part is complete for its bound.",
+         "Trusted: the abstract-graph model (harness/model/graph.go). Known findings (same id twice in one batch) are excluded from generation by an avoid predicate and replayed as witnesses; a regression inside that region is invisible.",
+         "5/C03"),
 }
 
 NOT_YET = "check not built yet in this session (design in DESIGN.md section 5); claimed once the monitor exists and is silent on the unchanged tree"
